@@ -162,7 +162,7 @@ struct CounterModel {
     went_idle_then_changed: bool,
 }
 
-fn case_seq(bytes: &[u8], _s: &[u8], ctx: &mut Ctx) -> Result<(), Fail> {
+pub fn case_seq(bytes: &[u8], _s: &[u8], ctx: &mut Ctx) -> Result<(), Fail> {
     let mut src = Source::new(bytes);
     let mut case = decode_seq(&mut src);
     let generated = case.steps.len();
@@ -388,7 +388,7 @@ enum Ev {
     FlushEnd(usize, Vec<DsdMessage>),
 }
 
-fn case_sched(bytes: &[u8], sched_bytes: &[u8], ctx: &mut Ctx) -> Result<(), Fail> {
+pub fn case_sched(bytes: &[u8], sched_bytes: &[u8], ctx: &mut Ctx) -> Result<(), Fail> {
     let mut src = Source::new(bytes);
     let case = decode_sched(&mut src);
     run_sched(case, sched_bytes, None, ctx).map(|_| ())
@@ -643,7 +643,7 @@ fn exhaustive_case(ops: Vec<UOp>) -> SchedCase {
     }
 }
 
-fn case_exhaustive_replay(bytes: &[u8], _s: &[u8], ctx: &mut Ctx) -> Result<(), Fail> {
+pub fn case_exhaustive_replay(bytes: &[u8], _s: &[u8], ctx: &mut Ctx) -> Result<(), Fail> {
     let sc = exhaustive_scenarios();
     let (name, ops) = sc[(*bytes.first().unwrap_or(&0) as usize).min(sc.len() - 1)].clone();
     let sch: Vec<(u64, usize)> = bytes[1.min(bytes.len())..].chunks(2).filter(|c| c.len() == 2).map(|c| (c[0] as u64, c[1] as usize)).collect();
